@@ -3,6 +3,7 @@ import itertools
 
 from .. import core, impl, gen, graphlab as GL
 from . import graphcommon as GC
+from .. import graph_oracle as GO
 
 DEPS = GC.DEPS
 MODEL_TARGETS = GC.MODEL_TARGETS
@@ -65,6 +66,12 @@ CORPUS = [
     ('gfa1', ['S\ta\t*', 'S\tb\t*', 'L\ta\t+\ta\t-\t4M', 'L\ta\t-\tb\t+\t*', 'P\tp\ta+,a-,b+\t4M,*']),
     ('gfa1', ['S\ta\t*', 'L\ta\t-\ta\t+\t*', 'P\tp\ta-,a+\t*']),
     ('gfa2', ['S\ta\t10\t*', 'S\tb\t10\t*', 'E\te1\ta+\tb+\t7\t10$\t0\t3\t*', 'O\to1\ta+ b+', 'U\tu1\to1 e1']),
+    # every class of edge on one pair of segments: the first segment contained, the second contained, both whole, an
+    # internal alignment, a dovetail, a gap and a fragment
+    ('gfa2', ['S\ta\t10\t*', 'S\tb\t4\t*', 'E\tc1\tb+\ta+\t0\t4$\t3\t7\t*', 'E\tc2\ta-\tb+\t2\t6\t0\t4$\t4M',
+              'E\ti1\ta+\tb-\t2\t5\t1\t3\t*', 'G\tg1\ta+\tb-\t3\t*']),
+    ('gfa2', ['S\ta\t10\t*', 'S\tb\t10\t*', 'E\tw\ta+\tb-\t0\t10$\t0\t10$\t*', 'E\td\tb+\ta+\t8\t10$\t0\t2\t2M',
+              'F\ta\tx-\t0\t3\t0\t3\t*', 'U\tu\tw d a']),
 ]
 
 
@@ -116,6 +123,13 @@ def run(ctx, deep, model_ok):
                 if bad:
                     ctx.violation('failing-input', 'a placeholder remains for an identifier the document defines', case, None, bad[:2])
                     break
+            # all references re-pointed: every reference is to a line the Gfa holds, and the back-references mirror them
+            inv = GO.check(G)
+            if inv:
+                ctx.violation('failing-input', 'after reading the whole document in this order: %s' % inv[0][0],
+                              {'kind': 'orders', 'version': ver, 'orders': [list(order)]}, inv[0][1], inv[0][2],
+                              python="import gfapy\ng=gfapy.Gfa(%r,version=%r)\nfor e in g.lines: print(e, [getattr(getattr(e,f,None),'line',getattr(e,f,None)) for f in e.REFERENCE_FIELDS])" % (list(order), ver))
+                break
             if ref is None:
                 ref = (order, ob)
             elif ob != ref[1]:
@@ -158,5 +172,9 @@ def replay(ctx, body):
         for o in case['orders']:
             r = impl.outcome(lambda: canon_obs(build(o, case['version'])))
             obs.append(r)
-        return len(set(repr(x) for x in obs)) > 1 or any(x[0] != 'ok' for x in obs)
+        inv = []
+        for o in case['orders']:
+            r = impl.outcome(lambda: GO.check(build(o, case['version'])))
+            inv += r[1] if r[0] == 'ok' else []
+        return len(set(repr(x) for x in obs)) > 1 or any(x[0] != 'ok' for x in obs) or bool(inv)
     return GC.replay_history(ctx, 'C03', body, lambda *a: [])
